@@ -155,10 +155,11 @@ def stored_timestamp(R, ctx):
                 return
             continue
         x = ce[0][2]['x']
-        rotate_flag = x[2] == ('const', True)
-        date = x[3]
+        rotate_flag = eff_arg_x(f, ce[0], 'rotate_rcurrent', r'^bool$') == ('const', True)
+        date = eff_arg_x(f, ce[0], 'o_date_for_rotated_file', r'^std::option::Option<&')
         stored = date[0] == 'agg' and date[2] == 'Some' and T.field_chain(date[3][0]) and T.field_chain(date[3][0])[-1] == 'current_timestamp'
-        infix_ok = T.field_chain(x[1]) and T.field_chain(x[1])[-2:] == ('the_current_infix', '0')
+        xi = eff_arg_x(f, ce[0], 'current_infix', r'^&str$')
+        infix_ok = T.field_chain(xi) and T.field_chain(xi)[-2:] == ('the_current_infix', '0')
         if not (rotate_flag and stored and infix_ok):
             R.bad('R09.4', f"{b.path}|stored-ts", "at rotation the rotated file is not named after the stored start timestamp "
                   f"(rotate flag const true: {rotate_flag}; date = Some(&stored current_timestamp): {stored}; infix = stored current infix: {infix_ok})",
